@@ -539,8 +539,9 @@ def check_scaling(case, ctx):
     ctx.close(e2 * c, e1, 1e-12 * J, "scaling:mse_empi")
     # closed form (textbook multinomial covariance) at sizes beyond enumeration
     Vc = block_diag([closed_cov(clipped(md.p[j]), big[j]) for j in range(J)])
-    ctx.close(V2, Vc, 1e-11 / c + 1e-15, "closed_form:cov_total")
-    ctx.close(e2, float(np.trace(Vc)), (1e-11 / c + 1e-15) * J, "closed_form:mse_empi")
+    vmax = float(np.max(np.abs(Vc)))
+    ctx.close(V2, Vc, 1e-11 / c + min(1e-15, 1e-6 * vmax), "closed_form:cov_total")
+    ctx.close(e2, float(np.trace(Vc)), (1e-11 / c + min(1e-15, 1e-6 * vmax)) * J, "closed_form:mse_empi")
     if not prepare_linear(md, ctx):
         return
     tn2 = float(np.linalg.norm(md.T, 2) ** 2)
@@ -959,7 +960,8 @@ def joint_case(draw, tier):
 @st.composite
 def scaling_case(draw, tier):
     case, J, K = draw(config_case(tier))
-    case["factor"] = draw(st.sampled_from([2, 3, 7, 10, 100, 1000, 12345, 10 ** 6]))
+    # (up to 1e15: sample sizes at which variances fall below any absolute clean-up threshold a routine might apply)
+    case["factor"] = draw(st.sampled_from([2, 3, 7, 10, 100, 1000, 12345, 10 ** 6, 10 ** 10, 10 ** 13, 10 ** 15]))
     case["N"] = draw(st.integers(1, 1000))
     return case
 
